@@ -27,7 +27,9 @@ PROP = dict(
                   "with image/png; the run compares the decoded PNG with the direct routine's image on every gfx record)",
                   "math.Ceil(float64(w)/8) = (w+7)/8 for the sizes in question",
                   "Go int modelled as unbounded; HWCGfx.W/H are uint32 so sizes are natural numbers; target canvas sizes >= 0"],
-    assumptions=["sizes small enough that Go int arithmetic and allocations do not overflow",
+    assumptions=["declared and target sizes whose image.NewRGBA buffer length 4*w*h fits an int and whose ceil(W/8)*H-byte slice can "
+                 "be made (guards of short_data_no_panic; a state declaring 2^31 x 2^31 pixels panics in ConvertGfxStateToPngBytes, "
+                 "65536 x 65536 asks for 16 GiB, RwpImgToImage then loops W*H times: outside the property's 'few hundred pixels')",
                  "target canvas width/height of RwpImgToImage are non-negative",
                  "graphics format is one of MONO, RGB16bit, Gray4bit",
                  "grey export: pixel clause for even widths only (odd widths: no panic, size and content outside the clause)",
@@ -44,7 +46,11 @@ CLAIM = dict(
          "rwp_centering, gfx_holds: for all declared sizes, all data lengths (shorter, equal, longer) and all target canvas sizes every "
          "pixel covered by the data is the documented expansion in CreateImgObjectFrom*Bytes, RwpImgToImage and the PNG path, images have "
          "exactly the declared / target size, the centred copy sits at offset (tw-W)/2 truncated; short_data_no_panic: no modelled function "
-         "ever indexes outside a slice. The same Spec predicates are evaluated on the real library's outputs and model = code is checked on "
+         "ever indexes outside a slice, and no allocation panics when 4*W*H fits an int (huge_size_panics_counterexample: W=H=2^31 "
+         "panics); rwp_uncovered_black: the rest of RwpImgToImage's canvas is black; sliceGray_content: every byte of the grey export "
+         "for every width (odd widths pair the last pixel of a row with the padding bit); export_of_long: a CreateFromBytes slice "
+         "longer than needed is installed as is and the exports ignore the surplus. "
+         "The same Spec predicates are evaluated on the real library's outputs and model = code is checked on "
          "generated records (all 64x64 colour pairs, all sizes of the grid, every truncation length for small images). Finding fixed by the "
          "patch: with mono data shorter than declared the PNG path rendered all black while RwpImgToImage expanded the bytes present "
          "(short_mono_png_black_counterexample).",
